@@ -45,9 +45,9 @@ def gen_job(verif_seed, tier, index):
     if g.random() < 0.06:
         # DNA strand over a shipped library, mostly with -dsdna (the complementary strand is generated): the listing
         # order / keys of the residues in the .json file must not matter
-        rg = histgen.dna_graph(g)
+        rg = histgen.dna_graph(g) if g.random() < 0.7 else histgen.dna_ring_graph(g)
         n = len(rg["resnames"])
-        lib = g.choice(["martini2", "parmbsc1"])
+        lib = g.choice(["martini2", "parmbsc1"]) if rg["shape"] != "ring" else "martini2"
         ds = g.random() < 0.75
         base = histgen.dna_op(g, rg, lib, ds)
         members.append({"dim": "base", "hashseed": 0, "ops": [base], "observe": 0})
@@ -55,8 +55,11 @@ def gen_job(verif_seed, tier, index):
         members.append({"dim": "repeat", "hashseed": e.choice(histgen.PALETTE), "ops": [base, base], "observe": 1})
         for k in range(3):
             keys = sorted(e.sample(range(0, 1000), n)) if k == 0 else e.sample(range(0, 10 ** 6), n)
+            ne = len(rg["edges"])
+            if k == 2:
+                keys = list(range(1, n)) + [0]            # key 0 on the residue with the highest resid
             op = histgen.dna_op(g, rg, lib, ds, keys=keys, node_order=_perm(e, n),
-                                edge_order=_perm(e, n - 1), flip=[i for i in range(n - 1) if e.random() < 0.5])
+                                edge_order=_perm(e, ne), flip=[i for i in range(ne) if e.random() < 0.5])
             members.append({"dim": "relabel", "hashseed": e.choice(histgen.PALETTE), "ops": [op], "observe": 0})
         return {"index": index, "run_seed": seed, "members": members, "lib": True, "dna": True}
     if g.random() < 0.08:
